@@ -1244,6 +1244,22 @@ def check_C15(run):
                     run.violation(dict(kind='correspondence-broken', correspondence='L4/setup_comms', remote_state=state, announced_version=announced, deploy=depword[dep], answer_deploy=ans,
                                        impl=got, model=want, fake_log=log), no_input=True)
         run.cov['disagreements_checked'] += len(configs)
+        # ---- consent is per deployment: two different hosts, both without a binary, behaviour prompt; the first prompt is answered
+        # "Deploy", the second is left unanswered (= cancelled): nothing may be uploaded to the second host and the run fails
+        import glob as _glob
+        for answers, want_uploads, want_ok in (('1:.*:Deploy', 1, False), ('2:.*:Deploy', 2, True), ('', 0, False)):
+            for d_ in _glob.glob(sb.remote + '-*'): shutil.rmtree(d_, ignore_errors=True)
+            open(sb.log, 'w').close(); shutil.rmtree(sb.dir + '/dst', ignore_errors=True)
+            r = l4.run_cli(['127.0.0.1:' + sb.dir + '/src/', 'localhost:' + sb.dir + '/dst/', '--deploy', 'prompt'], env=sb.env({'FAKE_PER_HOST': '1', 'RJRSSYNC_TEST_PROMPT_RESPONSE': answers}), timeout=120)
+            log = sb.fake_log()
+            ups = [l for l in log if l[0] == 'scp']
+            hosts_with_binary = sorted(os.path.basename(d_).split('-', 1)[1] for d_ in _glob.glob(sb.remote + '-*') if os.path.exists(d_ + '/rjrssync/rjrssync') or os.path.isdir(d_ + '/rjrssync'))
+            run.case(('consent-per-host', answers), True, sample=dict(layer='L4', what='two hosts needing a deploy, behaviour prompt', answers=answers, uploads=len(ups), hosts_with_binary=hosts_with_binary, rc=r['rc']))
+            run.count('consent-per-host'); run.cov['traces_validated_against_impl'] += 1
+            if len(ups) != want_uploads or (r['rc'] == 0) != want_ok or r['timeout']:
+                run.violation(dict(kind='oracle-failed-on-implementation', oracle='a binary is uploaded only to a host whose own deploy prompt was answered "Deploy"; a cancelled prompt uploads nothing there and fails the run',
+                                   layer='L4', answers=answers, uploads=[l[1] for l in ups], expected_uploads=want_uploads, rc=r['rc'], expected_success=want_ok, stderr=r['err'][-600:]))
+        for d_ in _glob.glob(sb.remote + '-*'): shutil.rmtree(d_, ignore_errors=True)
         # ---- a newly generated key for every doer launch: both doers remote in one run, twice: four launches, four different keys
         sb.place_remote('same')
         klog = os.path.join(sb.dir, 'keys.log')
@@ -2769,6 +2785,45 @@ def check_C19(run):
                                    version=(v1.stdout, v2.stdout, v2.returncode), list_embedded=(le.returncode, le.stdout[-300:], le.stderr[-300:]), sync_rc=sy.returncode))
     finally:
         shutil.rmtree(d, ignore_errors=True)
+    # L4: the deployment chain across platforms.  The freshly built binary is given an embedded-binaries table whose "aarch64" lite binary
+    # is really this x86_64 build; a fake uname makes the remote claim aarch64, so the boss must upgrade the embedded lite binary into a big
+    # one (add_section_to_elf with the table) and deploy that.  The deployed copy must start, pass the handshake, sync, report the same
+    # embedded binaries as its parent, and be able to deploy in turn (self-propagating).
+    from . import l4
+    d = l3.scratch(); sb = l4.Sandbox()
+    try:
+        lite = open(C.CLI_BIN, 'rb').read()
+        ent = lambda t, data: struct.pack('<Q', len(t)) + t + struct.pack('<Q', len(data)) + data
+        table = b'\x00' + struct.pack('<Q', 2) + ent(b'aarch64-unknown-linux-musl', lite) + ent(b'x86_64-pc-windows-msvc', b'MZ-not-a-real-binary')
+        open(os.path.join(d, 'table'), 'wb').write(table)
+        parent = os.path.join(d, 'parent')
+        ans = C.run_harness(['exefile ' + ' '.join(C.X(x) for x in (C.CLI_BIN, parent, os.path.join(d, 'table'), '.rjembed'))])[0][0]
+        if ans.startswith('ok:'):
+            os.chmod(parent, 0o755)
+            l3.make_tree(sb.dir + '/src', [('', 'D'), ('f', 'F', b'hello', 10**18), ('sub', 'D'), ('sub/g', 'F', b'x' * 5000, 10**18)])
+            lp = subprocess.run([parent, '--list-embedded-binaries'], capture_output=True, text=True, env=C.ENV)
+            hops, problem = [], None
+            boss_bin = parent
+            for hop, host in enumerate(['localhost', '127.0.0.1']):
+                shutil.rmtree(sb.dir + '/dst', ignore_errors=True)
+                env = sb.env({'FAKE_UNAME': 'aarch64', 'FAKE_PER_HOST': '1'})
+                r = subprocess.run([boss_bin, sb.dir + '/src/', host + ':' + sb.dir + '/dst/', '--deploy', 'ok'], capture_output=True, text=True, env=env, timeout=180)
+                child = sb.remote + '-' + host + '/rjrssync/rjrssync'
+                lc = subprocess.run([child, '--list-embedded-binaries'], capture_output=True, text=True, env=C.ENV) if os.path.exists(child) else None
+                hops.append(dict(hop=hop, host=host, rc=r.returncode, deployed=os.path.exists(child), synced=os.path.exists(sb.dir + '/dst/sub/g'), same_list=bool(lc) and lc.stdout == lp.stdout))
+                if r.returncode != 0 or not os.path.exists(sb.dir + '/dst/sub/g'):
+                    problem = f'hop {hop}: the sync through the deployed binary failed (status {r.returncode}): {r.stderr[-300:]}'; break
+                if lc is None or lc.returncode != 0 or lc.stdout != lp.stdout:
+                    problem = f'hop {hop}: the deployed binary does not report the same embedded binaries as its parent: parent {lp.stdout[-300:]!r}, child {(lc.stdout if lc else "")[-300:]!r}'; break
+                boss_bin = child
+            run.case(('deploy-chain',), True, sample=dict(layer='L4', what='cross-platform deployment chain (embedded lite binary upgraded and deployed, twice)', hops=hops)); run.count('deploy-chain:hops', len(hops))
+            if problem:
+                run.violation(dict(kind='oracle-failed-on-implementation', oracle='the binary that deployment places on a remote starts, passes the handshake, syncs, reports the same embedded binaries as its parent and can deploy in turn', layer='L4',
+                                   problem=problem, hops=hops, parent_list=lp.stdout[-400:]))
+        else:
+            run.violation(dict(kind='oracle-failed-on-implementation', oracle='the embedded-binaries table can be added to the freshly built binary', layer='L4', impl=ans))
+    finally:
+        shutil.rmtree(d, ignore_errors=True); sb.close()
     run.cov['panic_classes_seen'] = sorted(f'{a}:{b}' for a, b in panic_seen)
     run.cov['trusted_base'] = C.GLOBAL_TRUST + ['dev-profile integer semantics (overflow checks on) is what the harness and the suite run; the release profile differs only where an overflow occurs',
                                                 'PARTIAL: the general round-trip / preservation statement over all valid layouts is carried by the byte-exact correspondence + oracle, not by a Lean theorem; Windows loading of the PE result cannot be exercised here (no PE can run)',
